@@ -135,7 +135,8 @@ PROPS = {
                      "line or in the next source; file with or without "
                      "final newline; reads chunked to 1..16 bytes, short reads, EINTR. The subject run must equal a reference run that "
                      "gets the same words on argv with the sources switched off (both return with equal destination values, or both "
-                     "throw); override cases give a single-value argument through a source and again on argv. Non-trivial: at least "
+                     "throw); override cases give a single-value argument through a source and again on argv; one run in seven hands the "
+                     "whole quoted line to evalArgumentString() instead. Non-trivial: at least "
                      "one word travelled through the file or the environment. Distinct: distinct hashes over rendered sources, both "
                      "outcomes and every simulated file-system call."),
             "sim_time_unit": "none (no clock in this property)",
